@@ -56,21 +56,34 @@ def strat_cases(draw, ctx):
             cfgs.append({"method": "checkpointed", "n": draw(st.integers(1, T))})
         else:
             cfgs.append({"method": "reversible", "ckpt": draw(st.sampled_from([0, 1, 2, T - 1, draw(st.integers(0, T - 1))]))})
-    return {"scene": spec, "configs": cfgs}
+    # a third of the cases run every strategy twice, the second time on the arrays the first run returned (a used
+    # container): the strategies must agree there too
+    rerun = draw(st.booleans())
+    if rerun:
+        # an accumulating detector (phasor) is what makes stale detector data visible in a second run
+        spec["detectors"].append(draw(scenes.detector_strategy(spec["shape"], T, name="det_ph", kinds=("phasor",))))
+        if not any(c["method"] == "reversible" for c in cfgs):
+            cfgs.append({"method": "reversible", "ckpt": draw(st.sampled_from([0, 1]))})
+    return {"scene": spec, "configs": cfgs, "rerun": rerun}
 
 
-def _run(spec, lane, gradient):
+def _run(spec, lane, gradient, rerun=False):
     import fdtdx
 
     b = scenes.build(spec, lane, gradient=gradient)
     t, arrays = fdtdx.run_fdtd(arrays=b.arrays, objects=b.objects, config=b.config, key=b.key, show_progress=False)
+    if rerun:
+        t, arrays = fdtdx.run_fdtd(arrays=arrays, objects=b.objects, config=b.config, key=b.key, show_progress=False)
     return int(t), np.asarray(arrays.fields.E), np.asarray(arrays.fields.H), scenes.detector_arrays(arrays)
 
 
 def strat_body(ctx, case):
     spec = case["scene"]
     T = spec["steps"]
-    t0, E0, H0, D0 = _run(spec, ctx.lane, None)
+    rerun = bool(case.get("rerun"))
+    if rerun:
+        ctx.classify("rerun-on-used-container")
+    t0, E0, H0, D0 = _run(spec, ctx.lane, None, rerun)
     ctx.check(t0 == T, f"gradient-free run ended at step {t0}, expected {T}", t0, T)
     tol = ctx.tol(1e-12, 1e-5)
     nt = False
@@ -82,7 +95,7 @@ def strat_body(ctx, case):
             ctx.classify("reversible_ckpt>=1")
         if g["method"] == "checkpointed" and g["n"] < T:
             nt = True
-        t, E, H, D = _run(spec, ctx.lane, g)
+        t, E, H, D = _run(spec, ctx.lane, g, rerun)
         ctx.check(t == T, f"{label}: final step count {t} != {T}", t, T)
         scale = max(np.abs(E0).max(), np.abs(H0).max(), 1e-30)
         ctx.close(E, E0, scale=scale, tol=tol, msg=f"{label}: final E differs from gradient-free run", metric="E_err")
@@ -99,7 +112,7 @@ def strat_body(ctx, case):
 SUBS = [
     Sub(name="partition", body=partition_body, cases=partition_cases, lanes=("f64",), exhaustive=True,
         exhaustive_quick=True, rule="all (T,k) with 1<=k<=T<=600 (quick: T<=200)"),
-    Sub(name="strategy", body=strat_body, strategy=lambda ctx: strat_cases(ctx), quick=10, thorough=480,
+    Sub(name="strategy", body=strat_body, strategy=lambda ctx: strat_cases(ctx), quick=16, thorough=480,
         lanes=("f64", "f32"), f32_fraction=0.3, quick_shards=2,
         rule="random scene x gradient configurations vs the gradient-free run"),
 ]
